@@ -84,7 +84,8 @@ func exact(b []byte) []byte {
 	return o
 }
 
-var lenBoundary = []uint32{0, 1, 2, 7, 8, 9, 10, 11, 13, 1 << 15, 1<<16 - 1, 1 << 16, 1<<31 - 1, 1 << 31, 1<<32 - 1}
+var lenBoundary = []uint32{0, 1, 2, 7, 8, 9, 10, 11, 13, 19, 20, 21, 1 << 15, 1<<16 - 4, 1<<16 - 1, 1 << 16, 1<<31 - 5, 1<<31 - 4, 1<<31 - 1, 1 << 31,
+	1<<32 - 9, 1<<32 - 8, 1<<32 - 5, 1<<32 - 4, 1<<32 - 3, 1<<32 - 2, 1<<32 - 1}
 
 type c11Input struct {
 	Target string // get mutate scan regioninfo decompress multi
@@ -118,7 +119,36 @@ func kvFieldOffsets(cells []sim.Cell) (offs [][5]int) {
 
 func mutateCellblock(r *rand.Rand, cells []sim.Cell) (data []byte, op string) {
 	wire := sim.EncodeCells(cells)
-	switch x := r.Intn(20); {
+	switch x := r.Intn(26); {
+	case x >= 20 && x < 23 && len(cells) > 0:
+		// two length fields changed consistently, so that the first sanity check
+		// (total = 8 + key + value) still holds
+		offs := kvFieldOffsets(cells)
+		ci := r.Intn(len(cells))
+		v := lenBoundary[r.Intn(len(lenBoundary))]
+		klen := binary.BigEndian.Uint32(wire[offs[ci][1]:])
+		vlen := binary.BigEndian.Uint32(wire[offs[ci][2]:])
+		binary.BigEndian.PutUint32(wire[offs[ci][0]:], v)
+		if r.Intn(2) == 0 {
+			binary.BigEndian.PutUint32(wire[offs[ci][1]:], v-8-vlen)
+			return wire, "consistent-total+key"
+		}
+		binary.BigEndian.PutUint32(wire[offs[ci][2]:], v-8-klen)
+		return wire, "consistent-total+value"
+	case x >= 23 && x < 25:
+		// nothing but a length prefix and a few bytes
+		b := make([]byte, 4, 16)
+		binary.BigEndian.PutUint32(b, lenBoundary[r.Intn(len(lenBoundary))])
+		return append(b, rbytes(r, r.Intn(13))...), "length-prefix-only"
+	case x == 25 && len(cells) > 0:
+		// a length field changed, then the block cut somewhere
+		w2, op := mutateCellblock(r, cells)
+		if len(w2) > 0 {
+			w2 = w2[:r.Intn(len(w2))]
+		}
+		return w2, op + "+truncate"
+	case x >= 20:
+		return wire, "valid"
 	case x == 0:
 		return wire, "valid"
 	case x < 9 && len(cells) > 0: // set a length field
